@@ -55,7 +55,9 @@ def display_issue(src, out):
         return "display-quote:nul-appended", "quoted line %r contains U+0000 which is not in the source line %r" % (quoted, want)
     if quoted != want and quoted != want.lstrip(" \t") and not (want.endswith(quoted) and want[:len(want) - len(quoted)].strip(" \t") == ""):
         if quoted in [l for l in lines] or quoted in [l.lstrip(" \t") for l in lines]:
-            return "display-quote:wrong-line", "quoted %r is not the line of the cursor (%r)" % (quoted, want)
+            # a line of the source, but not the one the cursor is on: line numbering is C18's subject (a line break
+            # directly after a backtick inside a literal is not registered by the lexer); C05 asks for an existing line
+            return None
         return "display-quote:not-a-line", "quoted %r is not a line of the source (cursor line is %r)" % (quoted, want)
     return None
 
